@@ -91,7 +91,7 @@ def one_case(cid, pkey, rng, many=False):
     else:
         npv = [rng.choice([1, 2, 3, 4]) for _ in range(ncross)]; np_arg = np.array(npv, dtype="int64")
     nself = rng.choice([0, 0, 1, 2, 3]) if not many else rng.choice([0, 0, 1])
-    pc0 = rng.choice([0, 0, 5, 1234]); fc0 = rng.choice([0, 0, 3, 77])
+    pc0 = rng.choice([0, 0, 5, 1234, 10 ** 7 + 5, 123456789]); fc0 = rng.choice([0, 0, 3, 77, 99998, 10 ** 6 + 1])
     gen = np.random.default_rng(rng.randrange(2 ** 32)) if rng.random() < 0.5 else np.random.RandomState(rng.randrange(2 ** 32))
     prot = cls(progeny_counter=pc0, family_counter=fc0, rng=gen)
     warm = rng.random() < 0.3
